@@ -105,6 +105,17 @@ def oas30_as_draft7(j, in_props=False):
     return r
 
 
+def ref_siblings(j, in_props=False):
+    """schema levels where `$ref` has siblings (ignored by draft-07 / OpenAPI 3.0 consumers)"""
+    out = []
+    if isinstance(j, dict):
+        if not in_props and "$ref" in j and len(j) > 1: out.append(sorted(j))
+        for k, v in j.items(): out += ref_siblings(v, in_props=(not in_props and k in ("properties", "patternProperties", "$defs", "definitions", "dependentRequired", "dependencies")))
+    elif isinstance(j, list):
+        for v in j: out += ref_siblings(v)
+    return out
+
+
 def pack(t, **extra):
     return dict({"py": t.py, "src": t.decls(), "ty": t.lean, "features": sorted(t.features())}, **extra)
 
@@ -115,7 +126,7 @@ def run(prop, seed, budget, ctx):
     from apischema.json_schema import deserialization_schema, serialization_schema, JsonSchemaVersion
     rnd = random.Random(seed * 7919 + sum(map(ord, prop))); pool = Pool(); g = Gen(rnd, pool, None)
     if prop == "C07": g.kinds = g.kinds + ["reqopt", "reqopt", "optenum1"]
-    if prop == "C18": g.kinds = g.kinds + ["falsy_const", "falsy_const", "depreq"]
+    if prop == "C18": g.kinds = g.kinds + ["falsy_const", "falsy_const", "depreq", "described", "described"]
     g.kinds = g.kinds + ["depreq", "aggregate"]          # dependent_required / aggregate-field classes: outside the Lean model (K skipped), inside the P checks
     n_types, per = {"C06": (250, 8), "C07": (250, 8), "C18": (250, 6)}[prop]
     types = [g.ty(3) for _ in range(n_types * budget)]
@@ -167,7 +178,7 @@ def run(prop, seed, budget, ctx):
         else:
             ver0 = rnd.choice(["DRAFT_7", "DRAFT_2019_09", "OPEN_API_3_0", "OPEN_API_3_1"])
             # types whose schema has keywords that the rewrites rename (const, dependentRequired): every version
-            vers = ["DRAFT_7", "DRAFT_2019_09", "OPEN_API_3_0", "OPEN_API_3_1"] if ({"literal", "enum", "depreq"} & t.features()) else [ver0]
+            vers = ["DRAFT_7", "DRAFT_2019_09", "OPEN_API_3_0", "OPEN_API_3_1"] if ({"literal", "enum", "depreq", "described"} & t.features()) else [ver0]
             data = [d for d in (g.mutate(g.valid(t)) if rnd.random() < 0.5 else g.valid(t) for _ in range(per)) if common_domain(d)]
             for ver in vers:
                 try:
@@ -185,7 +196,7 @@ def run(prop, seed, budget, ctx):
         if mo is not None and "error" in mo:
             failures.append(pack(t, kind="K", why="driver error " + str(mo["error"])[:100], k_ok=False)); continue
         if prop == "C18" and extra in ("OPEN_API_3_0", "OPEN_API_3_1"): mo = None      # no Lean model of the OpenAPI rewrite yet
-        if {"depreq", "aggregate"} & t.features(): mo = None
+        if {"depreq", "aggregate", "described"} & t.features(): mo = None
         if mo is not None and not has_refs:
             kcmp += 1
             k_ok = canon_schema(py_proto(real)) == canon_schema(mo["schema"])
@@ -240,6 +251,9 @@ def run(prop, seed, budget, ctx):
             new = keywords(real) & VOCAB_BY_VERSION[ver]
             if new:
                 failures.append(pack(t, kind="P", ap=ap, version=ver, k_ok=k_ok, real=real, why=["keyword-outside-the-target-vocabulary:" + ",".join(sorted(new))]))
+            if ver in ("DRAFT_7", "OPEN_API_3_0") and ref_siblings(real):
+                # the older dialects ignore what stands next to a `$ref`: the rewrite isolates references (`isolate_ref`)
+                failures.append(pack(t, kind="P", ap=ap, version=ver, k_ok=k_ok, real=real, why=["$ref-with-siblings:" + ",".join(ref_siblings(real)[0])]))
             # the definitions entry point, one side and both sides merged: the same vocabulary at every level
             if OBJ_KINDS & t.features():
                 from apischema.json_schema import definitions_schema
@@ -400,7 +414,7 @@ def replay(prop, case, ctx):
         real = deserialization_schema(tp, additional_properties=case["ap"], with_schema=False, version=getattr(JsonSchemaVersion, ver))
         base = deserialization_schema(tp, additional_properties=case["ap"], with_schema=False)
         bad = keywords(real) & VOCAB_BY_VERSION[ver]
-        fails = bool(bad)
+        fails = bool(bad) or (ver in ("DRAFT_7", "OPEN_API_3_0") and bool(ref_siblings(real)))
         if ver == "OPEN_API_3_0":
             fails = fails or any(not isinstance(x, str) for x in all_types(real))
             if "d" in case:
